@@ -84,7 +84,7 @@ Proof.
 Qed.
 
 (* ---- executable checker for the correspondence runs *)
-Inductive bop := BAdd (k : nat) | BBackup | BDelete (id : N) | BList (obs : list (N * N)).
+Inductive bop := BAdd (k : nat) | BBackup | BDelete (id : N) | BList (obs : list (N * N)) | BRestore (id : N) (events : N).
 Fixpoint nn_eqb (a b : list (N * N)) : bool :=
   match a, b with
   | [], [] => true
@@ -97,7 +97,120 @@ Definition run_bop (s : bstate) (o : bop) : bstate * bool :=
   | BBackup => (b_backup s, true)
   | BDelete id => (b_delete s id, true)
   | BList obs => (s, nn_eqb (b_list s) obs)
+  | BRestore id n => (s, match b_restore s id with Some m => m =? n | None => false end)
   end.
+
+(* ---- the same machine with the events themselves: what a backup restores to is the log as it was when the
+   backup was taken, a prefix of every later log; the counting model above is its image under `abs` *)
+Section BackupEvents.
+  Variable E : Type.
+  Record estate := { es_events : list E; es_backups : list (N * list E); es_next : N }.
+  Definition einit : estate := {| es_events := []; es_backups := []; es_next := 1 |}.
+  Inductive eop := EAdd (c : list E) | EBackup | EDelete (id : N).
+  Definition e_step (s : estate) (o : eop) : estate :=
+    match o with
+    | EAdd c => {| es_events := es_events s ++ c; es_backups := es_backups s; es_next := es_next s |}
+    | EBackup => {| es_events := es_events s; es_backups := es_backups s ++ [(es_next s, es_events s)]; es_next := es_next s + 1 |}
+    | EDelete id => {| es_events := es_events s; es_backups := filter (fun b => negb (fst b =? id)) (es_backups s); es_next := es_next s |}
+    end.
+  Definition e_restore (s : estate) (id : N) : option (list E) :=
+    match filter (fun b => fst b =? id) (es_backups s) with (_, evs) :: _ => Some evs | [] => None end.
+
+  Definition abs (s : estate) : bstate :=
+    {| bs_events := N.of_nat (length (es_events s));
+       bs_backups := map (fun b => (fst b, (N.of_nat (length (snd b)) + W64b - 1) mod W64b, N.of_nat (length (snd b)))) (es_backups s);
+       bs_next := es_next s |}.
+  Definition abs_op (o : eop) : bop :=
+    match o with EAdd c => BAdd (length c) | EBackup => BBackup | EDelete id => BDelete id end.
+
+  Lemma abs_step s o : abs (e_step s o) = fst (run_bop (abs s) (abs_op o)).
+  Proof.
+    destruct o as [c| |id]; cbn [e_step abs_op run_bop fst]; unfold abs, b_add, b_backup, b_delete; cbn [es_events es_backups es_next bs_events bs_backups bs_next].
+    - rewrite app_length, Nat2N.inj_add. reflexivity.
+    - rewrite map_app. reflexivity.
+    - f_equal. induction (es_backups s) as [|[i evs] l IH]; [reflexivity|]. cbn [filter map fst snd].
+      destruct (i =? id); cbn [negb map fst snd]; rewrite IH; reflexivity.
+  Qed.
+
+  Lemma abs_restore s id : b_restore (abs s) id = option_map (fun evs => N.of_nat (length evs)) (e_restore s id).
+  Proof.
+    unfold b_restore, e_restore, abs. cbn [bs_backups].
+    induction (es_backups s) as [|[i evs] l IH]; [reflexivity|]. cbn [filter map fst snd].
+    destruct (i =? id); [reflexivity|exact IH].
+  Qed.
+
+  (* invariant of every reachable state: identifiers are below the next one, and every backup holds a prefix of
+     the current log *)
+  Definition einv (s : estate) : Prop :=
+    forall b, In b (es_backups s) -> fst b < es_next s /\ exists rest, es_events s = snd b ++ rest.
+
+  Lemma einv_init : einv einit.
+  Proof. intros b []. Qed.
+
+  Lemma einv_step s o : einv s -> einv (e_step s o).
+  Proof.
+    intros Hi b Hin. destruct o as [c| |id]; cbn [e_step es_backups es_next es_events] in *.
+    - destruct (Hi b Hin) as [Hlt [rest Hr]]. split; [exact Hlt|]. exists (rest ++ c). rewrite Hr, app_assoc. reflexivity.
+    - apply in_app_or in Hin. destruct Hin as [Hin|[<-|[]]].
+      + destruct (Hi b Hin) as [Hlt Hr]. split; [lia|exact Hr].
+      + cbn. split; [lia|]. exists []. rewrite app_nil_r. reflexivity.
+    - apply filter_In in Hin. exact (Hi b (proj1 Hin)).
+  Qed.
+
+  Theorem einv_reach ops : forall s, einv s -> einv (fold_left e_step ops s).
+  Proof. induction ops as [|o ops IH]; intros s Hi; [exact Hi|]. cbn. apply IH, einv_step, Hi. Qed.
+
+  Lemma e_restore_fresh s : einv s -> e_restore (e_step s EBackup) (es_next s) = Some (es_events s).
+  Proof.
+    intros Hi. unfold e_restore. cbn [e_step es_backups]. rewrite filter_app.
+    assert (Hnone : filter (fun b : N * list E => fst b =? es_next s) (es_backups s) = []).
+    { assert (Hall : forall b, In b (es_backups s) -> fst b < es_next s) by (intros b Hb; exact (proj1 (Hi b Hb))).
+      induction (es_backups s) as [|b l IH]; [reflexivity|]. cbn [filter].
+      assert (Hb : fst b < es_next s) by (apply Hall; left; reflexivity).
+      assert (Hne : (fst b =? es_next s) = false) by (apply N.eqb_neq; lia). rewrite Hne.
+      apply IH. intros b' Hb'. apply Hall. right. exact Hb'. }
+    rewrite Hnone. cbn. rewrite N.eqb_refl. reflexivity.
+  Qed.
+
+  Definition not_delete (id : N) (o : eop) : Prop := match o with EDelete i => i <> id | _ => True end.
+
+  Lemma e_restore_step s o id evs : not_delete id o -> e_restore s id = Some evs -> e_restore (e_step s o) id = Some evs.
+  Proof.
+    intros Hnd Hr. destruct o as [c| |other]; cbn [e_step]; unfold e_restore in *; cbn [es_backups] in *.
+    - exact Hr.
+    - rewrite filter_app. destruct (filter (fun b : N * list E => fst b =? id) (es_backups s)) as [|[i e] l]; [discriminate|exact Hr].
+    - cbn in Hnd. revert Hr. induction (es_backups s) as [|[i e] l IH]; [discriminate|]. cbn [filter fst].
+      destruct (i =? id) eqn:Hi.
+      + apply N.eqb_eq in Hi. subst i. assert (Hx : (id =? other) = false) by (apply N.eqb_neq; congruence).
+        rewrite Hx. cbn [negb filter fst]. rewrite N.eqb_refl. intros Hr. exact Hr.
+      + intros Hr. destruct (i =? other); cbn [negb filter fst]; [|rewrite Hi]; exact (IH Hr).
+  Qed.
+
+  (* A backup taken in any reachable state s restores, after ANY later sequence of insertions, backups and
+     deletions of other backups, to exactly the log as it was in s - which is a prefix of the later log:
+     nothing added afterwards, nothing missing. *)
+  Theorem backup_restores_log_as_of_backup ops : forall s, einv s ->
+    Forall (not_delete (es_next s)) ops ->
+    e_restore (fold_left e_step ops (e_step s EBackup)) (es_next s) = Some (es_events s) /\
+    exists rest, es_events (fold_left e_step ops (e_step s EBackup)) = es_events s ++ rest.
+  Proof.
+    intros s Hi Hnd. set (id := es_next s) in *. set (evs := es_events s).
+    assert (Hgen : forall ops s', Forall (not_delete id) ops -> e_restore s' id = Some evs ->
+                   e_restore (fold_left e_step ops s') id = Some evs).
+    { clear. induction ops as [|o ops IH]; intros s' Hf Hr; [exact Hr|]. cbn. inversion Hf as [|? ? Ho Hf']; subst.
+      apply IH; [exact Hf'|]. apply e_restore_step; assumption. }
+    assert (Hr : e_restore (fold_left e_step ops (e_step s EBackup)) id = Some evs).
+    { apply Hgen; [exact Hnd|]. apply e_restore_fresh, Hi. }
+    split; [exact Hr|].
+    pose proof (einv_reach ops (e_step s EBackup) (einv_step s EBackup Hi)) as Hinv.
+    unfold e_restore in Hr.
+    destruct (filter (fun b : N * list E => fst b =? id) (es_backups (fold_left e_step ops (e_step s EBackup)))) as [|[i e] l] eqn:Hf; [discriminate|].
+    injection Hr as ->. assert (Hin : In (i, evs) (es_backups (fold_left e_step ops (e_step s EBackup)))).
+    { assert (Hin' : In (i, evs) ((i, evs) :: l)) by (left; reflexivity). rewrite <- Hf in Hin'. apply filter_In in Hin'. exact (proj1 Hin'). }
+    exact (proj2 (Hinv _ Hin)).
+  Qed.
+End BackupEvents.
+
 Fixpoint run_bops (s : bstate) (k : N) (l : list bop) : list N :=
   match l with
   | [] => []
